@@ -135,6 +135,18 @@ func (r *run) callSSA(fn *ssa.Function, args []Value, env []Value) Value {
 			r.intrFn = fn
 			return in(r, nil, args)
 		}
+		if r.eng.Merge[name] && r.eng.Concrete == nil && r.eng.mergeable(fn) {
+			r.eng.mu.Lock()
+			if _, ok := r.eng.Funcs[fn]; !ok {
+				n := 0
+				for _, b := range fn.Blocks {
+					n += len(b.Instrs)
+				}
+				r.eng.Funcs[fn] = n
+			}
+			r.eng.mu.Unlock()
+			return r.mergedCall(fn, args)
+		}
 		if in, ok := r.eng.Intrinsics[stripTypeArgs(name)]; ok {
 			r.intrFn = fn
 			return in(r, nil, args)
